@@ -669,3 +669,10 @@ LEAN_TARGETS = LEAN_TARGETS + ['OdxVerif.Props.C03Nested2R2']
 THEOREMS = THEOREMS + ["OdxVerif.Codec." + t for t in ['C03_reserved_supplied_ignored', 'C03_reencode_nested2R_full',
                                                         'descs2R_encodeMessage_full', 'Comp.reservedSup_ok', 'Desc2R.okMFull',
                                                         'Desc2R.mcFull_same', 'Comp.ofValue_structO_same']]
+
+
+# W24 (compu-method leaves in the nested tier: Desc3 / Described3) — appended
+LEAN_TARGETS = LEAN_TARGETS + ['OdxVerif.Props.C03Nested3']
+THEOREMS = THEOREMS + ["OdxVerif.Codec." + t for t in ['C03_reencode_nested3', 'C03_reencode_nested3_echo', 'C03_encoded_is_canonical3', 'descs3_reencode_pure',
+                                                        'Descs3.supplied_eq_decoded', 'C03_texttable_interior_not_reproduced',
+                                                        'C03_texttable_duplicate_text_not_reencodable', 'exRe7_ok', 'exRe7_full', 'exRe7_disj']]
